@@ -60,6 +60,11 @@ def decide_and_report(prop, tier, seed, runs, undecided, known, index, wall, ext
         for f in r.failures:
             if prop in f['props']:
                 failures.append((f, r))
+        for lg in getattr(r.unit, 'lost_ghost_updates', []) or []:
+            fprops = (r.unit.fns.get(lg['fn']) or {}).get('props') or []
+            cprops = set(q for c in r.unit.clauses if c.get('fn') == lg['fn'] for q in (c.get('props') or []))
+            if prop in fprops or prop in cprops:
+                undecided.append('%s: a proof aid of %s that updates ghost state has no place on this tree (%s): its clauses are no longer tied to the code' % (r.name, lg['fn'], lg['aid']))
         for sb in getattr(r.unit, 'skipped_blocks', []) or []:
             if prop in sb['props'] or not sb['props']:
                 undecided.append('%s: block %s does not compile on this tree (a name its signature returns or renames is gone) and was left out' % (r.name, sb['block']))
